@@ -385,3 +385,18 @@ def inDomainLines (O : Oracles) (ls : List Bytes) : Bool :=
   ls.all (fun l => classify O l != .outside) && gfxDiscipline O none ls
 
 end RawPanelVerif.Spec.In
+
+/-! ## the guard of the round trip messages → lines → messages (C02 `roundtrip_in`) -/
+namespace RawPanelVerif.Spec.In
+open RawPanelVerif RawPanelVerif.Bytes RawPanelVerif.MsgIn
+
+/-- a FLAG register id is empty or a protocol numeral (digits, value < 2^32) -/
+def rtRegOk (r : Register) : Bool := r.reg != 1 || r.id == [] || (num? r.id).isSome
+/-- normalising the calibration payload twice changes nothing more (true of valid UTF-8) -/
+def rtCalOk (j : Bytes) : Bool := normPayload (normPayload j) == normPayload j
+def rtCmdOk (c : Command) : Bool := optOk c.setCalibrationProfile rtCalOk
+def rtMsgOk (m : InMsg) : Bool := optOk m.command rtCmdOk && m.registers.all rtRegOk
+/-- what `inDomainIn` lacks for the encoder's lines to lie in `inDomainLines` -/
+def roundtripGuard (ms : List InMsg) : Bool := ms.all rtMsgOk
+
+end RawPanelVerif.Spec.In
